@@ -306,7 +306,93 @@ func c16Explore(tier ev.Tier, shard, n int) c16Result {
 		}
 		res.Outcomes[fmt.Sprintf("pairs=%d", len(d.Pairs))]++
 	}
+	if shard == 0 {
+		c16Large(&res)
+	}
 	return res
+}
+
+// c16Large: Dicts of 7..150 pairs (string, identifier and qualified keys), under identity,
+// reversed and every rotated map order at each range execution.
+func c16Large(res *c16Result) {
+	for _, n := range []int{7, 20, 60, 150} {
+		build := func(ctl *env.Controller) (jh.Outcome, []string) {
+			dict := jen.Dict{}
+			var want []string
+			for i := 0; i < n; i++ {
+				var k jen.Code
+				var kt string
+				switch i % 3 {
+				case 0:
+					kt = fmt.Sprintf("%q", fmt.Sprintf("k%03d", (i*37)%n))
+					k = jen.Lit(fmt.Sprintf("k%03d", (i*37)%n))
+				case 1:
+					kt = fmt.Sprintf("K%03d", (i*11)%n)
+					k = jen.Id(kt)
+				default:
+					kt = fmt.Sprintf("f.X%03d", i)
+					k = jen.Qual("a/f", fmt.Sprintf("X%03d", i))
+				}
+				ctl.Key(k)
+				dict[k] = jen.Lit(i)
+				want = append(want, fmt.Sprintf("%s : %d", kt, i))
+			}
+			f := jen.NewFile("p")
+			f.NoFormat = true
+			f.Var().Id("x").Op("=").Id("T").Values(dict)
+			sort.Strings(want)
+			return jh.RenderFile(f), want
+		}
+		outputs := map[string]bool{}
+		st := explore.Explore(explore.Options{MaxDev: 1, Workers: 1}, func(c *explore.Ctx) {
+			ctl := env.NewController(func(site string, n int) []int {
+				perms, _ := c07Perms(n)
+				return perms[c.Choose(len(perms))]
+			})
+			remove := env.Install(ctl)
+			o, want := build(ctl)
+			remove()
+			res.RangeExecs += int64(ctl.Ranges)
+			if c.Devs > 0 {
+				res.Deviating++
+			}
+			if outputs[o.Key()] {
+				return
+			}
+			outputs[o.Key()] = true
+			msg := ""
+			if !o.OK() {
+				msg = "render failed: " + jh.Short(o.String(), 200)
+			} else if af, fset, err := jh.ParseFile(o.Out); err != nil {
+				msg = "output does not parse: " + err.Error()
+			} else {
+				var got, keys []string
+				ast.Inspect(af, func(nd ast.Node) bool {
+					if kv, ok := nd.(*ast.KeyValueExpr); ok {
+						src := func(x ast.Node) string { return o.Out[fset.Position(x.Pos()).Offset:fset.Position(x.End()).Offset] }
+						got = append(got, stripSpace(src(kv.Key))+" : "+stripSpace(src(kv.Value)))
+						keys = append(keys, src(kv.Key))
+					}
+					return true
+				})
+				sorted := append([]string(nil), got...)
+				sort.Strings(sorted)
+				switch {
+				case strings.Join(sorted, "\n") != strings.Join(want, "\n"):
+					msg = fmt.Sprintf("a Dict of %d pairs renders %d pairs that are not exactly the given ones", n, len(got))
+				case !sort.StringsAreSorted(keys):
+					msg = fmt.Sprintf("a Dict of %d pairs is not ordered by key text", n)
+				}
+			}
+			if msg != "" && len(res.Violations) < 20 {
+				res.Violations = append(res.Violations, ev.Violation{Signature: "c16:large:" + problemKind(msg), What: fmt.Sprintf("%s (map-order vector %v)", msg, c.Vector()), Case: ev.JSON(c16Case{Desc: "large", Variant: -n}), Detail: msg})
+			}
+		})
+		res.Executions += st.Executions
+		if len(outputs) > 1 && len(res.Violations) < 40 {
+			res.Violations = append(res.Violations, ev.Violation{Signature: "c16:large:order-dependent", What: fmt.Sprintf("a Dict of %d pairs has %d different renderings depending on map iteration order", n, len(outputs)), Case: ev.JSON(c16Case{Desc: "large", Variant: -n})})
+		}
+	}
 }
 
 // C16Shard is the body of the `c16shard` subcommand.
@@ -328,7 +414,7 @@ func runC16(r *ev.Recorder) {
 	}
 	r.Rule = fmt.Sprintf("every multiset of pairs over key kinds %v and value kinds %v (quick: <= 3 pairs over all 9x6 kinds, 4 pairs over the first 7x4; thorough: <= 4 over all, 5 over 6x3), each key a fresh object (so keys with equal text are distinct map keys), "+
 		"rendered raw as `var x = T{...}` - alone in a fresh File, after the qualified paths were made anonymous imports, and after another Dict in the same File with the File rendered twice - under EVERY map iteration order of every dynamic range execution (instrumented build; all n! permutations, deviation bound 1 quick / 2 thorough). "+
-		"Oracle on the parsed raw output: the literal's key:value pairs are exactly the multiset of non-null pairs (qualified names resolved through the import block, not through jennifer), "+
+		"Also Dicts of 7, 20, 60 and 150 pairs (string, identifier and qualified keys) under identity, reversed and every rotated order. Oracle on the parsed raw output: the literal's key:value pairs are exactly the multiset of non-null pairs (qualified names resolved through the import block, not through jennifer), "+
 		"ordered by the raw rendered key text, one pair inline and several one per line; and one outcome per Dict over all orders. "+
 		"states = executions, transitions = dynamic map-range executions answered; distinct_nontrivial = executions with a deviating order (distinct by construction)", knames, vnames)
 	r.Assume = []string{"maps with more than 4 entries get identity, reverse and rotations only", "Dicts larger than the bounds and other key/value expressions are outside the bound"}
@@ -389,6 +475,9 @@ func replayC16(raw json.RawMessage) (bool, string) {
 	var c c16Case
 	if err := json.Unmarshal(raw, &c); err != nil {
 		return true, "bad case"
+	}
+	if c.Variant < 0 {
+		return true, "large-Dict cases are replayed by running the check"
 	}
 	run := func(vec []int) jh.Outcome {
 		rp := explore.NewReplay(vec)
